@@ -40,6 +40,10 @@ TRUSTED = ["SHA-256 is injective on the texts of the pool (checked: pool hashes 
 ASSUMPTIONS = ["'an entry that no longer unpickles' = a data blob on which pickle.loads raises an Exception subclass or returns None; "
                "blobs that unpickle to a different well-formed object, and pickles with side effects, are outside the statement",
                "corruption of an entry concerns its data blob (last_hit stays an integer)",
+               "a table with the expected column names but other declared types/flags (e.g. last_hit TEXT) or a file that only "
+               "fails integrity_check is installed only while the process does not hold the database initialised (a reload "
+               "follows otherwise): the layout is validated once per process, and such damage after initialisation without "
+               "reload is outside the histories the property lists",
                "the clock does not go backwards; expiration days in {0,1,7,30,365}",
                "texts on which the uncached parser itself raises are not part of the pool"]
 
